@@ -610,10 +610,15 @@ class ModuleTranslator:
     # ---- entry ----------------------------------------------------------------------------------------------
     def translate(self):
         src = self.path.read_text()
-        with warnings.catch_warnings():
-            warnings.simplefilter("ignore")
-            tree = ast.parse(src, filename=str(self.path))
-            tab = symtable.symtable(src, str(self.path), "exec")
+        try:
+            with warnings.catch_warnings():
+                warnings.simplefilter("ignore")
+                tree = ast.parse(src, filename=str(self.path))
+                tab = symtable.symtable(src, str(self.path), "exec")
+        except (SyntaxError, ValueError) as e:
+            # a module that does not compile cannot be imported: the resolver reports it when it is imported
+            self.note("module_does_not_compile", None, str(e)[:100])
+            return [("nomodule", self.N(self.modname))]
         scope = _Scope("module", tab, "")
         evs = []
         for n in IMPLICIT + (["__path__"] if self.is_pkg else []):
